@@ -12,6 +12,7 @@ def disciplined (_ : FnShape) (a : Access) : Bool :=
   | .write => a.mode == .W
   | .self => false
   | .spawn => false
+  | .send => false
 
 theorem discipline : allAccesses genericStack disciplined = true := by decide
 
